@@ -6,7 +6,7 @@
 (*   C07 (state invariants, every event): sizes unique noSelf rightBucket ipBucket ipTable      *)
 (*        known noPanic; "lists" (revalidation-list bookkeeping) is reported as drift only       *)
 (*   C18 (action properties, "op" events): noEviction fullKeeps removalCause succession         *)
-(*        recordVersion endpointClearsLive creditKept creditSpent creditExhausted               *)
+(*        recordVersion endpointClearsLive creditKept creditSpent creditExhausted staleIgnored   *)
 (* The statement does not fix the rate at which failed checks consume credit (the pinned code    *)
 (* divides by 3): the judge demands that a passed check never costs credit, that a failed check  *)
 (* an entry survives costs credit, and that removals at failed checks are consistent with ONE    *)
@@ -85,6 +85,11 @@ Act(pre, post, o) ==
     endpointClearsLive |-> \A b \in 0..(NB - 1) : \A n \in IdsOf(pre[b].e) \cap IdsOf(post[b].e) :
                         LET x == Find(pre[b].e, n)  y == Find(post[b].e, n) IN
                         EndpointChanged(x, y) => ~y.live,
+    \* the result of a liveness check that was started for an entry which has since left the table (op "revalstale":
+    \* delivered for the old entry object) changes nothing - whether or not the id has a new entry meanwhile
+    staleIgnored |-> (o.name = "revalstale") =>
+                        /\ IdSeq(post[b0].e) = IdSeq(pre[b0].e) /\ IdSeq(post[b0].r) = IdSeq(pre[b0].r)
+                        /\ \A i \in 1..Len(pre[b0].e) : post[b0].e[i].chk = pre[b0].e[i].chk /\ post[b0].e[i].live = pre[b0].e[i].live,
     creditKept |-> (o.name = "reval" /\ o.isentry /\ o.alive) =>
                       o.id \in IdsOf(post[b0].e) /\ Find(post[b0].e, o.id).chk >= o.credit,
     creditSpent |-> (o.name = "reval" /\ o.isentry /\ ~o.alive /\ o.id \in IdsOf(post[b0].e)) =>
